@@ -340,7 +340,7 @@ def gen_history(rng: Any) -> list[Any]:
 def histories(ctx: Ctx) -> None:
     res = ctx.res
     rng = ctx.rng.__class__(f"C12-hist/{ctx.seed}")
-    n = 60000 if ctx.thorough else 6000
+    n = 200000 if ctx.thorough else 6000
     for i in range(n):
         ops = gen_history(rng)
         framing = "noise" if i % 6 == 0 else "plain"
